@@ -512,6 +512,51 @@ def f_long_backward(rng):
     return run[0].upper() + run[1:] + tail
 
 
+SERIES = [["F.", "F.2d", "F.3d", "F.4th"], ["S.W.", "S.W.2d", "S.W.3d"], ["F. Supp.", "F. Supp. 2d", "F. Supp. 3d"], ["N.E.", "N.E.2d", "N.E.3d"],
+          ["Cal.", "Cal. 2d", "Cal. 3d", "Cal. 4th"], ["A.", "A.2d", "A.3d"], ["P.", "P.2d", "P.3d"], ["L. Ed.", "L. Ed. 2d"], ["So.", "So. 2d", "So. 3d"]]
+
+
+def f_same_vol_page_series(rng):
+    """full citations with the SAME volume and page in different series of one reporter family (and once repeated in the same
+    series): equal exactly when the series is the same"""
+    fam = rng.choice(SERIES)
+    v, pg = num(rng), num(rng)
+    k = rng.choice([2, 3])
+    eds = [rng.choice(fam) for _ in range(k)]
+    if rng.random() < 0.7 and len(set(eds)) == 1:
+        eds[-1] = rng.choice([x for x in fam if x != eds[0]])
+    parts = [f"{P(party(rng))} v. {P(party(rng))}, {v} {ed} {pg}{year_paren(rng)}." for ed in eds]
+    tail = rng.choice(["", f" Id. at {num(rng)}.", f" {v} {eds[0]}, at {num(rng)}."])
+    return " ".join(parts) + tail
+
+
+_NOVOL = None
+
+
+def no_volume_reporters():
+    """reporter strings whose short-form extractor has no 'volume' group (nominative reporters, looseleaf services, session laws)"""
+    global _NOVOL
+    if _NOVOL is None:
+        out = []
+        try:
+            from eyecite.tokenizers import EXTRACTORS
+            for e in EXTRACTORS:
+                if (getattr(e, "extra", None) or {}).get("short") and "volume" not in e.compiled_regex.groupindex:
+                    out += sorted(e.strings)[:2]
+        except Exception:
+            pass
+        _NOVOL = sorted(set(out)) or ["Bee", "Crabbe", "Gilp.", "Blue Sky L. Rep."]
+    return _NOVOL
+
+
+def f_short_no_volume(rng):
+    """short form '<reporter>[,] at <page>' of a reporter cited without a volume, with or without a preceding full citation"""
+    r = rng.choice(no_volume_reporters())
+    pre = rng.choice(["", "", f"{P(party(rng))} v. {P(party(rng))}, {r} {num(rng)}{year_paren(rng)}. ", f"{f_full(rng)} "])
+    body = rng.choice([f"relied on {r}, at {num(rng)}, for that proposition.", f"{P(party(rng))}, {r} at {num(rng)}.", f"See {r} at {num(rng)}; id. at {num(rng)}."])
+    return pre + body
+
+
 def f_reference_before(rng):
     """a party name mentioned (italicised in markup mode) BEFORE the full citation as well as after it: only the later
     mention may become a reference citation"""
@@ -527,6 +572,8 @@ def f_reference_before(rng):
 
 FAMILIES = {
     "long_backward": f_long_backward,
+    "same_vol_page_series": f_same_vol_page_series,
+    "short_no_volume": f_short_no_volume,
     "reference_before": f_reference_before,
     "full": f_full,
     "bare": f_bare,
@@ -557,7 +604,7 @@ DEFAULT_MIX = [
     ("supra", 5), ("id", 6), ("law", 5), ("journal", 4), ("placeholder", 3), ("cal_year", 5),
     ("string_cite", 4), ("nested_paren", 4), ("nominative_overlap", 5), ("odd_v", 5), ("reference", 5),
     ("id_after_odd_page", 3), ("long_digits", 0.4), ("filler", 6), ("hostile", 2), ("section_glued", 2),
-    ("long_backward", 5), ("reference_before", 2),
+    ("long_backward", 5), ("reference_before", 2), ("same_vol_page_series", 4), ("short_no_volume", 4),
 ]
 
 # focus (qualified function name, without the leading "eyecite.") -> template families
@@ -578,7 +625,7 @@ FOCUS = {
     "helpers.overlapping_citations": [("short_parallel", 8), ("reference", 8), ("parallel", 6)],
     "resolve._has_invalid_pin_cite": [("id_after_odd_page", 12), ("placeholder", 3), ("id", 3), ("long_digits", 1)],
     "resolve._resolve_id_citation": [("id_after_odd_page", 8), ("id", 6), ("string_cite", 4)],
-    "resolve.resolve_citations": [("id_after_odd_page", 4), ("reference", 4), ("short", 4), ("supra", 4), ("id", 4), ("full", 4)],
+    "resolve.resolve_citations": [("same_vol_page_series", 5), ("id_after_odd_page", 4), ("reference", 4), ("short", 4), ("supra", 4), ("id", 4), ("full", 4)],
     "tokenizers.Tokenizer.tokenize": [("nominative_overlap", 12), ("full", 3), ("section_glued", 3), ("supra", 2), ("id", 2), ("string_cite", 2), ("hostile", 2)],
     "tokenizers.token_is_from_nominative_reporter": [("nominative_overlap", 12), ("full", 2)],
     "tokenizers.Tokenizer.append_text": [("filler", 6), ("hostile", 6), ("full", 3)],
@@ -595,7 +642,8 @@ FOCUS = {
     "models.Edition.includes_year": [("bare", 8), ("cal_year", 5), ("full", 5)],
     "find.get_citations": None,  # default mix
     "find._extract_full_citation": [("full", 6), ("bare", 4), ("law", 4), ("journal", 4), ("placeholder", 2)],
-    "find._extract_shortform_citation": [("long_backward", 5), ("short", 10), ("short_parallel", 5), ("nominative_overlap", 2)],
+    "resolve._resolve_shortcase_citation": [("short_no_volume", 8), ("short", 8), ("short_parallel", 4), ("same_vol_page_series", 3), ("full", 3)],
+    "find._extract_shortform_citation": [("short_no_volume", 5), ("long_backward", 5), ("short", 10), ("short_parallel", 5), ("nominative_overlap", 2)],
     "find._extract_supra_citation": [("long_backward", 5), ("supra", 10), ("reference", 2), ("hostile", 2)],
     "find._extract_id_citation": [("id", 10), ("id_after_odd_page", 3), ("string_cite", 2)],
     "find.extract_reference_citations": [("reference", 12), ("full", 3), ("parallel", 2)],
